@@ -81,6 +81,9 @@ def variants(prog, rng):
     yield 'inner-spaces', gen.render_program(prog, L(rng, noise=0.0, inner_p=1.0))
     yield 'pre-index-space', gen.render_program(prog, L(rng, noise=0.0, pre_p=1.0))
     yield 'explicit-zero', gen.render_program(explicit_zero(prog))
+    if any(isinstance(st, gen.Block) and getattr(st, 'guard', 0) for st in prog.stmts):
+        # comments inside a fenced block (Python's own, after indented lines) are comments too; the canonical rendering has none
+        yield 'block-with-comments', gen.render_program(prog)
     canonical = gen.render_program(prog)
     yield 'crlf-line-endings', canonical.replace('\n', '\r\n') + '\r\n'
     if not any(isinstance(st, gen.Block) for st in prog.stmts):
@@ -113,7 +116,11 @@ def to_script_indexes(equation):
 
 def one_program(ctx, prog, rng):
     import fsic
-    base_script = gen.render_program(prog)
+    gen.BLOCK_COMMENTS['on'] = False
+    try:
+        base_script = gen.render_program(prog)       # canonical: no comments anywhere, fenced blocks included
+    finally:
+        gen.BLOCK_COMMENTS['on'] = True
     ex = gen.classify(prog)
     case = {'program': gen.to_json(prog), 'script': base_script}
     try:
